@@ -613,6 +613,10 @@ func defaultValue(c *schema.Column) (string, error) {
 		case *schema.BoolType, *schema.DecimalType, *schema.IntegerType, *schema.FloatType:
 			return x.V, nil
 		default:
+			// BLOB literals (e.g. x'53514C') are not strings.
+			if v := strings.ToLower(x.V); len(v) >= 3 && strings.HasPrefix(v, "x'") && strings.HasSuffix(v, "'") && strings.Trim(v[2:len(v)-1], "0123456789abcdef") == "" {
+				return x.V, nil
+			}
 			return sqlx.SingleQuote(x.V)
 		}
 	case *schema.RawExpr:
